@@ -19,7 +19,8 @@ RULE = ("A real Zeroconf registers a service (v4/v6/dual/multi-address, custom T
         "(QU PTR question for the type, proposed PTR in the authority section, nothing else), no record of the service multicast "
         "before the last probe, three complete announcements 225 ms apart (PTR, SRV, TXT, all A/AAAA, NSEC when a family is "
         "missing; flush bit exactly on non-PTR records); conflict before the last probe check => NonUniqueNameException or first "
-        "free '-N' name, re-probed, conflicting name never announced/answered (NonUniqueNameException when no '-N' name fits a "
+        "free '-N' name, re-probed, conflicting name never announced/answered; the same through the blocking register_service of "
+        "a Zeroconf() with its own loop thread, in real time (counts, order, content, outcome) (NonUniqueNameException when no '-N' name fits a "
         "label: instance labels of 61..63 bytes are generated); an expired-but-unpurged cached copy of the conflicting pointer is "
         "one of the start states; registry holds each name once. Distinct = "
         "(variant, conflict window, rename, chain length, address family, layout) classes.")
@@ -31,7 +32,7 @@ ANNOUNCE = 225.0
 
 def floors(tier):
     q = tier == "quick"
-    return {"c09.probe_format": 8000 if q else 900000, "c09.announce": 3000 if q else 300000, "c09.conflict": 4000 if q else 500000, "c09.registry": 4000 if q else 500000}
+    return {"c09.probe_format": 8000 if q else 900000, "c09.announce": 3000 if q else 300000, "c09.conflict": 4000 if q else 500000, "c09.registry": 4000 if q else 500000, "c09.blocking": 6 if q else 40}
 
 
 def plan(tier, seed):
@@ -344,15 +345,116 @@ def window_of(d: float) -> str:
     return "after-P3"
 
 
+def run_blocking(res: Result, seed: int) -> None:
+    """register_service() of the blocking API, called from a non-loop thread of a Zeroconf() with its own loop thread (real
+    time, fake sockets): with a conflicting pointer cached beforehand, heard ~100 ms into probing, or not at all.  Judged on
+    counts, order and content (real-time spacing is only required to lie within 100 ms of 175 / 225 ms): three probes, then
+    three complete announcements, none before the last probe; conflict => NonUniqueNameException in the calling thread or the
+    first free '-N' name, the conflicting name never announced."""
+    import time
+    from zeroconf import NonUniqueNameException
+    from ..threadrun import BlockingInstance
+    rng = random.Random(seed)
+    res.evaluations += 1
+    s = R.gen_service(rng, type_=rng.choice(["_http._tcp.local.", "_ipp._tcp.local."]), min_ttl=10)
+    inst = rng.choice(["blk node", "Blk.Dotted", "blké"])
+    s.name = inst + "." + s.type
+    s.server = "blk-host.local."
+    conflict = rng.choice(["none", "cached", "during"])
+    allow = rng.random() < 0.5
+    desc = {"blocking": True, "svc": s.brief(), "conflict": conflict, "allow": allow}
+
+    def viol(monitor: str, kind: str, detail: str, **sig: Any) -> None:
+        res.violation(monitor, kind, detail, dict(sig, family="blocking"), {"seed": seed, "blocking": True, "scenario": desc})
+
+    try:
+        with BlockingInstance() as bi:
+            zc = bi.zc
+            cdata = R.build_response([(("PTR", s.type, (s.name,)), 4500, False)], id_=9)
+            if conflict == "cached":
+                bi.inject(cdata)
+                bi.settle(5)
+            elif conflict == "during":
+                import threading
+                threading.Timer(rng.choice([0.05, 0.1, 0.2]), bi.inject, args=(cdata,)).start()
+            info = R.make_info(s)
+            result = "registered"
+            t0 = bi.now_ms()
+            try:
+                zc.register_service(info, allow_name_change=allow)
+            except NonUniqueNameException:
+                result = "nonunique"
+            took = bi.now_ms() - t0
+            time.sleep(0.05)
+            res.mon("c09.blocking")
+            final = info.name
+            if conflict == "none":
+                if result != "registered" or final != s.name:
+                    viol("c09.conflict", "spurious_conflict", "blocking register_service without any conflict: %s, name %s" % (result, final))
+            elif not allow:
+                if result != "nonunique":
+                    viol("c09.conflict", "conflict_not_detected", "blocking register_service: conflict (%s) but registration of %s succeeded" % (conflict, final), allow=False)
+            else:
+                if result != "registered" or final != "%s-2.%s" % (inst, s.type):
+                    viol("c09.conflict", "wrong_name_after_conflict", "blocking register_service: conflict (%s): result %s name %s, expected %s-2" % (conflict, result, final, inst), allow=True)
+            probes: List[Tuple[float, str]] = []
+            anns: List[Tuple[float, Any]] = []
+            for e in bi.net.trace:
+                m, _ = wire.try_parse(e["data"], strict=True)
+                if m is None or not e["mcast"]:
+                    continue
+                if not m.is_response and m.authorities:
+                    probes.append((e["t"], m.authorities[0].rdata.text() if hasattr(m.authorities[0].rdata, "text") else ""))
+                elif m.is_response:
+                    ids = {R.ident_of_wire(r) for r in m.answers}
+                    ptrs = [i for i in ids if i[0] == "PTR" and i[1] == s.type.lower()]
+                    if ptrs and any(r.ttl > 0 for r in m.answers):
+                        anns.append((e["t"], ids))
+                        if ptrs[0][2][0] == s.name.lower() and conflict != "none":
+                            viol("c09.conflict", "conflicting_name_sent", "blocking register_service: the conflicting name %s was announced" % s.name)
+            if result == "registered":
+                res.mon("c09.announce")
+                mine = [t for t, target in probes if target.lower() == final.lower()]
+                if len(mine) != 3:
+                    viol("c09.announce", "probe_count", "blocking register_service: %d probes for %s (expected 3)" % (len(mine), final), count=len(mine))
+                svc_final = Svc(s.type, final, s.server, s.port, s.text, s.addrs4, s.addrs6, s.host_ttl, s.other_ttl, s.priority, s.weight)
+                complete = set(svc_final.all_records())
+                # (an announcement carries PTR, SRV and TXT in its answer section; the host's reply to its own last probe - the
+                #  pointer alone - is no announcement)
+                mine_a = [(t, ids) for t, ids in anns if {svc_final.ptr(), svc_final.srv(), svc_final.txt()} <= ids]
+                if len(mine_a) != 3:
+                    viol("c09.announce", "announcement_count", "blocking register_service returned after %.0f ms with %d announcements on the wire (expected 3)" % (took, len(mine_a)), count=len(mine_a))
+                for t, ids in mine_a:
+                    if not complete <= ids:
+                        viol("c09.announce", "announcement_incomplete", "blocking register_service: announcement lacks %r" % (sorted(complete - ids, key=repr)[:3],))
+                        break
+                if mine and mine_a and mine_a[0][0] < max(mine) - 1.0:
+                    viol("c09.announce", "announced_before_last_probe", "blocking register_service: announcement %.0f ms before the last probe" % (max(mine) - mine_a[0][0]))
+                if len(mine) == 3 and any(abs((b - a) - CHECK) > 100.0 for a, b in zip(mine, mine[1:])):
+                    res.obs("blocking_probe_spacing_off_by_more_than_100ms_machine_load")
+            bad = [e for e in bi.net.escapes if "was destroyed but it is pending" not in str(e.get("message"))]
+            if bad:
+                viol("c09.probe_format", "loop_exception", repr(bad[0])[:600])
+            res.cls("blocking", conflict, "rename" if allow else "strict", result)
+    except Exception as e:
+        viol("c09.probe_format", "exception", "exception in the blocking registration run: %r\n%s" % (e, tb()), exc_type=type(e).__name__)
+
+
 def run_shard(spec):
     res = Result()
     rng = rng_for("c09", spec["seed"], spec["shard"])
     for _ in range(spec["per"]):
         run_scenario(res, rng.randrange(1 << 30))
+    if spec["shard"] in ((2, 3, 4, 5) if spec["tier"] == "quick" else range(2, 26)):
+        for _ in range(2):
+            run_blocking(res, rng.randrange(1 << 30))
     return res
 
 
 def replay(blob):
     res = Result()
+    if blob.get("blocking"):
+        run_blocking(res, blob["seed"])
+        return res
     run_scenario(res, blob["seed"])
     return res
